@@ -650,6 +650,52 @@ fn gen_query(rng: &mut Rng, model: &Value, names: &[String]) -> String {
             quote_single(n)
         }
     };
+    // filters that compare a member (or the node itself) with a literal that occurs in the document, and
+    // filters joined by && / ||: how a filter attaches index and name steps to what it keeps
+    let mut pairs: Vec<(String, Value)> = vec![];
+    let mut scalars: Vec<Value> = vec![];
+    collect_pairs(model, &mut pairs, &mut scalars);
+    let lit = |v: &Value| -> String {
+        match v {
+            Value::String(t) => quote_single(t),
+            other => other.to_string(),
+        }
+    };
+    let member = |rng: &mut Rng, n: &str| -> String {
+        if gen::shorthand_ok(n) && rng.chance(1, 2) {
+            format!("@.{}", n)
+        } else {
+            format!("@[{}]", quote_single(n))
+        }
+    };
+    let rich_atom = |rng: &mut Rng| -> String {
+        match rng.below(8) {
+            0 | 1 if !pairs.is_empty() => {
+                let (n, v) = rng.pick(&pairs).clone();
+                format!("{} {} {}", member(rng, &n), rng.pick(&["==", "==", "!=", "<=", ">="]), lit(&v))
+            }
+            2 if !scalars.is_empty() => format!("@ {} {}", rng.pick(&["==", "==", "!=", "<", ">="]), lit(rng.pick(&scalars))),
+            3 if !pairs.is_empty() => {
+                let n = rng.pick(&pairs).0.clone();
+                member(rng, &n)
+            }
+            4 if !pairs.is_empty() => {
+                let n = rng.pick(&pairs).0.clone();
+                format!("!{}", member(rng, &n))
+            }
+            5 => "@[0]".to_string(),
+            6 => "length(@) > 1".to_string(),
+            _ => (*rng.pick(&["@", "@ > 0", "@ != null", "count(@.*) > 0"])).to_string(),
+        }
+    };
+    let rich_filter = |rng: &mut Rng| -> String {
+        match rng.below(6) {
+            0 | 1 => rich_atom(rng),
+            2 | 3 => format!("{} && {}", rich_atom(rng), rich_atom(rng)),
+            4 => format!("{} || {}", rich_atom(rng), rich_atom(rng)),
+            _ => format!("{} && ({} || {})", rich_atom(rng), rich_atom(rng), rich_atom(rng)),
+        }
+    };
     // one to three suffix segments: the combinations matter (a filter below a descendant below a slice,
     // a union holding a filter, nested filters)
     let n_suffix = match rng.weighted(&[6, 3, 1]) {
@@ -657,7 +703,14 @@ fn gen_query(rng: &mut Rng, model: &Value, names: &[String]) -> String {
         1 => 2,
         _ => 3,
     };
+    // under 60-120 levels of nesting every further descendant segment multiplies the node list by the
+    // depth (88 s for one run seen): there, nothing follows the first descendant segment
+    let deep = locs.iter().map(|l| l.len()).max().unwrap_or(0) > 30;
+    let base_len = q.len();
     for round in 0..n_suffix {
+    if deep && q[base_len..].contains("..") {
+        break;
+    }
     match if round == 0 { rng.weighted(&[4, 3, 3, 4, 3, 2, 2, 2, 2, 2, 3, 4]) } else { rng.weighted(&[0, 3, 3, 3, 3, 2, 2, 2, 2, 2, 3, 5]) } {
         0 => {}
         11 => {
@@ -703,8 +756,17 @@ fn gen_query(rng: &mut Rng, model: &Value, names: &[String]) -> String {
         2 => q.push_str("[*]"),
         3 => q.push_str("..*"),
         4 => {
-            let f = rng.pick(&["?@", "?@==@", "?@>0", "?@[0]", "?count(@.*)>0", "?length(@)>=0", "?@.a", "?!@.a", "?@!=null"]);
-            q.push_str(&format!("[{}]", f));
+            if rng.chance(1, 2) {
+                let f = rich_filter(rng);
+                if rng.chance(1, 5) {
+                    q.push_str(&format!("..[?{}]", f));
+                } else {
+                    q.push_str(&format!("[?{}]", f));
+                }
+            } else {
+                let f = rng.pick(&["?@", "?@==@", "?@>0", "?@[0]", "?count(@.*)>0", "?length(@)>=0", "?@.a", "?!@.a", "?@!=null"]);
+                q.push_str(&format!("[{}]", f));
+            }
         }
         5 => {
             if rng.chance(1, 3) {
@@ -741,6 +803,29 @@ fn gen_query(rng: &mut Rng, model: &Value, names: &[String]) -> String {
     }
     }
     q
+}
+
+/// (member name, scalar value) pairs and scalar array elements that occur in the document (capped).
+fn collect_pairs(v: &Value, pairs: &mut Vec<(String, Value)>, scalars: &mut Vec<Value>) {
+    match v {
+        Value::Object(o) => {
+            for (k, x) in o {
+                if !(x.is_object() || x.is_array()) && pairs.len() < 40 {
+                    pairs.push((k.clone(), x.clone()));
+                }
+                collect_pairs(x, pairs, scalars);
+            }
+        }
+        Value::Array(a) => {
+            for x in a {
+                if !(x.is_object() || x.is_array()) && scalars.len() < 40 {
+                    scalars.push(x.clone());
+                }
+                collect_pairs(x, pairs, scalars);
+            }
+        }
+        _ => {}
+    }
 }
 
 fn gen_value(rng: &mut Rng, k: &mut u64) -> Value {
@@ -901,7 +986,13 @@ pub fn gen_doc(rng: &mut Rng) -> Value {
         for _ in 0..n {
             let len = rng.below(5);
             let inner: Vec<Value> = (0..len).map(|j| if rng.chance(1, 3) { json!([gen::scalar(rng), j]) } else if rng.chance(1, 3) { json!({ k2.clone(): [j, gen::scalar(rng)] }) } else { gen::scalar(rng) }).collect();
-            let rec = match rng.below(3) {
+            let tag = match rng.below(3) {
+                0 => json!("x"),
+                1 => json!("y"),
+                _ => json!(1),
+            };
+            let rec = match rng.below(4) {
+                3 => json!({ k1.clone(): inner, "t": tag, "u": rng.below(2) }),
                 0 => json!({ k1.clone(): inner, k2.clone(): { k1.clone(): gen::scalar(rng) } }),
                 1 => Value::Array(vec![Value::Array(inner), gen::scalar(rng)]),
                 _ => json!({ k2.clone(): { k1.clone(): inner } }),
@@ -1239,7 +1330,16 @@ pub fn run_chunk(req: &ChunkReq, findings: &[Finding]) -> ChunkOut {
     let mut out = ChunkOut::default();
     for (pos, i) in req.runs.iter().enumerate() {
         let rs = derive(req.seed, "c09run", *i);
+        let t_run = std::time::Instant::now();
         let r = run(rs, findings);
+        if std::env::var("VERIF_C09_PROFILE").is_ok() && t_run.elapsed().as_millis() > 300 {
+            let qs: Vec<String> = r.history.ops.iter().filter_map(|o| match o { Op::Capture { q, .. } | Op::UpdateAll { q, .. } => Some(q.chars().take(80).collect()), _ => None }).collect();
+            // the switch names a file: chunk processes have no terminal
+            if let Ok(mut f) = std::fs::OpenOptions::new().create(true).append(true).open(std::env::var("VERIF_C09_PROFILE").unwrap()) {
+                use std::io::Write;
+                let _ = writeln!(f, "slow run {}: {} ms, doc {} bytes, queries {:?}", i, t_run.elapsed().as_millis(), r.history.doc.to_string().len(), qs);
+            }
+        }
         out.stats.merge(&r.stats);
         out.ops_total += r.history.ops.len() as u64;
         if r.nontrivial {
